@@ -102,7 +102,9 @@ Proof.
       pose proof (IHl esc (pop_frame s5) l) as G. exact G.
     + apply (grows_pbind snd snd).
       * apply grows_lift; auto. intros [v s1] E. eapply Hev; eauto.
-      * intros [v s1] _. cbn. rewrite store_out. apply ext_refl.
+      * intros [v s1] _. cbn [snd]. apply (grows_pbind (fun s' => s') snd).
+        -- apply grows_lift; auto. intros s2 E. eapply bind_target_out; eauto.
+        -- intros s2 _. cbn. apply ext_refl.
     + apply (grows_pbind (fun p => snd p) snd); [apply Hcap|].
       intros [[sg txt] s1] _. cbn [snd]. destruct sg; [|cbn; apply ext_refl|cbn; apply ext_refl].
       apply (grows_pbind (fun _ => s1) snd); [apply grows_lift; auto|]. intros v _. cbn. rewrite store_out. apply ext_refl.
@@ -115,7 +117,7 @@ Proof.
       intros [vs s1] _. cbn [snd].
       destruct (enclose c s1 (macro_closure [] [] body)) as [s2 cl] eqn:Ee. destruct (lookup c s2 mn) as [fv s3] eqn:El.
       assert (Ho : s_out s3 = s_out s1) by (rewrite (lookup_out _ _ _ _ _ El); eapply enclose_out; eauto).
-      destruct fv as [[| | |b|z|sf t|l|mc mcl|i n|g]|]; try (cbn; apply ext_eq; exact Ho).
+      destruct fv as [[| | |b|z|sf t|l|kvs|mc mcl|i n|g]|]; try (cbn; apply ext_eq; exact Ho).
       apply (grows_pbind snd snd).
       { apply grows_lift; auto. intros [v s4] E. cbn [snd]. rewrite (call_macro_out _ _ _ _ _ _ _ _ _ _ E). exact Ho. }
       intros [v s4] _. cbn. apply ext_cons, ext_refl.
